@@ -182,6 +182,14 @@ def anTrace (E : Nat → List Rat → Option (List Rat)) (thresh : Rat) :
         let r := anTrace E thresh fuel (k + 1) x' env'
         (r.1, match r.2 with | none => some mg | some m2 => some (if m2 < mg then m2 else mg))
 
+/-- `quad` branch: phase from the quadrature signal `nX + i·q` of the clipped amplitude-normalised
+    IMF (`sqrtT` the `sqrt(1 − nX²)` table), amplitude from the upper envelope of the IMF itself -/
+def Analytic.quadH (O : Analytic) (norm env sqrtT : List Rat → List Rat) (x : List Rat) :
+    List Rat × List Rat :=
+  let nX := (norm x).map clip1
+  let q := (quadImag? nX (sqrtT nX)).getD []
+  (O.post ((nX.zip q).map O.angle), env x)
+
 /-! ## protocol -/
 
 open Protocol in
